@@ -58,9 +58,20 @@ def recipes(draw, classes=None, d_min=1, d_max=8, max_ops=5, n_max=300,
             o == 'split_noov' and r['member'] != 'Ellipsoid')]
         r['ns'] = draw(st.lists(st.sampled_from(
             [1, 7, 137, 999, 1000, 1001, 2500]), min_size=3, max_size=3))
+    if cls in ('Union', 'Nautilus') and 'dups' in spec and (
+            r.get('npm') is None or r['npm'] < d + 5):
+        # a split may produce a child of n_points_min = d+1 rows; with
+        # duplicated rows among them the child is rank-deficient (8 distinct
+        # rows in 8-d): the general-position precondition, not a finding
+        del spec['dups']
     if cls in ('Neural', 'Nautilus'):
         r['n_networks'] = draw(st.sampled_from([0, 0, 1, 2]))
         r['q'] = draw(st.sampled_from([0.3, 0.5, 0.8]))
+        # documented: non-default keyword arguments of MLPRegressor
+        r['nn'] = draw(st.sampled_from([
+            {}, {}, {'activation': 'tanh'}, {'activation': 'logistic'},
+            {'hidden_layer_sizes': [6, 4]}, {'solver': 'lbfgs'},
+            {'activation': 'identity', 'alpha': 0.01}]))
     if cls == 'Nautilus':
         r['npm'] = draw(st.sampled_from([None, d + 1, d + 5, d + 50]))
         r['split_threshold'] = draw(st.sampled_from([1, 1, 100]))
@@ -93,6 +104,13 @@ def apply_union_op(u, op):
 
 class Built:
     pass
+
+
+def nn_kw(r):
+    kw = dict(NN_KW)
+    for k, v in r.get('nn', {}).items():
+        kw[k] = tuple(v) if isinstance(v, list) else v
+    return kw
 
 
 def build(r, pool=None):
@@ -137,7 +155,7 @@ def build(r, pool=None):
         log_l_min = float(np.quantile(log_l, r['q']))
         out.bound = NeuralBound.compute(
             pts, log_l, log_l_min, enlarge_per_dim=r['enlarge'],
-            n_networks=r['n_networks'], neural_network_kwargs=dict(NN_KW),
+            n_networks=r['n_networks'], neural_network_kwargs=nn_kw(r),
             rng=rng)
         out.log_l, out.log_l_min = log_l, log_l_min
     elif cls == 'Nautilus':
@@ -149,7 +167,7 @@ def build(r, pool=None):
             pts, log_l, log_l_min, r['log_v_target'],
             enlarge_per_dim=r['enlarge'], n_points_min=r['npm'],
             split_threshold=r['split_threshold'], periodic=periodic,
-            n_networks=r['n_networks'], neural_network_kwargs=dict(NN_KW),
+            n_networks=r['n_networks'], neural_network_kwargs=nn_kw(r),
             pool=pool, rng=rng)
         out.unit = True
         out.log_l, out.log_l_min = log_l, log_l_min
